@@ -78,6 +78,8 @@ func runPolCorrupt(c *PolCase) (res interface{}, herr error) {
 		raw = out // an unsupported snapshot version: refused by the library today; the property only requires "no panic"
 	case "policy-kind-99":
 		raw = append(append([]byte{}, snap...), fBytes(6, msg(fBytes(1, ruleW(predW(27), nil, nil)), fVar(2, 99)))...)
+	case "policy-kind-neg":
+		raw = append(append([]byte{}, snap...), fBytes(6, msg(fBytes(1, ruleW(predW(27), nil, nil)), fVar(2, ^uint64(0))))...)
 	case "policy-no-kind":
 		raw = append(append([]byte{}, snap...), fBytes(6, fBytes(1, ruleW(predW(27), nil, nil)))...)
 		must = "error"
